@@ -5,5 +5,5 @@ CONSTANTS
   Universe = "full"
 VIEW View
 INVARIANTS InvOneActive
-PROPERTIES PropIssue PropSerial PropRootSetAtomic PropReconf EmitProp
+PROPERTIES PropIssue PropSerial PropRootSetAtomic PropReconf PropRotate EmitProp
 CHECK_DEADLOCK FALSE
